@@ -426,3 +426,7 @@ mod tests {
         }
     }
 }
+
+#[cfg(all(aws_s2n_quic_verif, any(test, all(kani, feature = "testing"))))]
+#[path = "/verif/harness/transport/close_sender.rs"]
+mod verif;
